@@ -36,10 +36,14 @@ func To(fs http.FileSystem, r *http.Request, to string, replacer httpserver.Repl
 		t = replacer.Replace(v)
 		tparts := strings.SplitN(t, "?", 2)
 
+		// The result becomes the request path: keep it rooted. Without the
+		// leading slash (a relative target, or a `without` prefix that ate it)
+		// path matchers such as basicauth and internal would not recognise a
+		// path that the file server still resolves from the site root.
 		if len(without) > 0 {
-			t = path.Clean(strings.TrimPrefix(tparts[0], without[0]))
+			t = path.Clean("/" + strings.TrimPrefix(tparts[0], without[0]))
 		} else {
-			t = path.Clean(tparts[0])
+			t = path.Clean("/" + tparts[0])
 		}
 
 		if len(tparts) > 1 {
